@@ -313,6 +313,23 @@ def r5_sources(ctx: Context) -> None:
     for f, stmt, recv, value in __import__("sa.util", fromlist=["attr_store_sites"]).attr_store_sites(prog, "random_state"):
         if value is not None and "random_generator" in src(value) and not (isinstance(stmt, ast.Assign) and "rv" in src(stmt.targets[0])):
             ctx.fail("R5.own-generator", f"{f.qualname.split(':')[1]}:shares-generator", f"`{src(stmt)[:80]}` hands the generator object itself to another component: two components share one stream", f, stmt)
+    # .rvs() of a scipy distribution without random_state uses numpy's global state
+    for f in prog.all_functions():
+        for c in calls_in(f.node, scope_only=False):
+            if isinstance(c.func, ast.Attribute) and c.func.attr == "rvs":
+                recv = c.func.value
+                q = prog.qualify(f.module, dotted(recv) or "") if dotted(recv) else ""
+                is_dist = q.startswith("scipy.stats") or (isinstance(recv, ast.Call) and prog.qualify(f.module, dotted(recv.func) or "").startswith("scipy.stats"))
+                if is_dist:
+                    rs = kwarg(c, "random_state")
+                    ok = rs is not None and src(rs) in ("self.random_generator",)
+                    ctx.check(ok, "R5.third-party-seed", f"{f.qualname.split(':')[1]}:{src(recv)[:30]}.rvs:random_state", "scipy draws use the owner's generator",
+                              f"`{' '.join(src(c).split())[:90]}`: random_state={src(rs) if rs is not None else 'unset'} - scipy then draws from numpy's process-global state, outside the seed cascade", f, c)
+    # hash-order iteration feeding ordered results (labels, arrays)
+    from ..util import set_iteration_sites
+    for f, node, what in set_iteration_sites(prog, prog.all_functions()):
+        ctx.fail("R5.hash-order", f"{f.qualname.split(':')[1]}:iterates-set:{what[:40]}", f"iteration over the set `{what}` feeds an ordered result: the order of a set of strings/objects depends on "
+                 "PYTHONHASHSEED / addresses, so two runs of the same configuration in different processes differ", f, node)
     ctx.floor("R5", "call sites scanned", n_calls, 600)
     ctx.ok("R5.global-rng", "package:scanned", f"{n_calls} call sites scanned for uncontrolled randomness sources")
 
